@@ -255,7 +255,7 @@ RECURSIVE InitPush(_, _)
 InitPush(c, t) == IF t.g = "S" THEN InitPush(Push(c, t.fields, 0), t.fields[1].t) ELSE c
 ImplInit(t) ==    \* __Pyx_BufFmt_Init
   InitPush([st |-> <<[fs |-> <<[t |-> t, off |-> 0]>>, i |-> 1, po |-> 0]>>, hn |-> FALSE, fo |-> 0, nc |-> 1, ec |-> 0,
-            et |-> "", cx |-> FALSE, npm |-> "@", epm |-> "@", va |-> FALSE, sa |-> 0, ev |-> {}, res |-> "run"], t)
+            et |-> "", cx |-> FALSE, npm |-> "@", epm |-> "@", va |-> FALSE, sa |-> 0, ev |-> {}, res |-> "run", lr |-> ""], t)
 
 \* moving on to the next field after one has been checked: the while(1) loop of _ProcessTypeChunk
 RECURSIVE Advance(_)
@@ -336,7 +336,7 @@ TypeChars == {"?", "c", "b", "B", "h", "H", "i", "I", "l", "L", "q", "Q", "f", "
 \* (at the end of the string or after a closing brace), p the position returned.
 RECURSIVE CS(_, _, _, _)
 RECURSIVE CSRepeat(_, _, _, _, _)
-CSRepeat_(f, r, p, n) == CSRepeat(f, r.c, p, n, r.p)
+CSRepeat_(f, r, p, n) == CSRepeat(f, [r.c EXCEPT !.lr = ""], p, n, r.p)      \* (lr: the last return was at a closing brace)
 CSRepeat(f, c, p, n, after) ==     \* the for loop of case 'T'
   IF n = 0 \/ c.res # "run" THEN [c |-> c, p |-> after]
   ELSE CSRepeat_(f, CS(f, c, p, FALSE), p, n - 1)
@@ -354,7 +354,7 @@ CSRec_(f, c1, p, z, cnt, salign) ==
   ELSE CSRec2_(f, CSRepeat(f, [c1 EXCEPT !.et = "", !.ec = 0, !.sa = 0], p + 2, cnt, p + 2), salign, z)
 CSClose_(c1, p, alignment) ==
   IF c1.res # "run" THEN [c |-> c1, p |-> p]
-  ELSE [c |-> [c1 EXCEPT !.et = "", !.fo = IF alignment # 0 THEN RoundUp(@, alignment) ELSE @], p |-> p + 1]
+  ELSE [c |-> [c1 EXCEPT !.et = "", !.fo = IF alignment # 0 THEN RoundUp(@, alignment) ELSE @, !.lr = "brace"], p |-> p + 1]
 CSPad_(f, c1, p, z) ==
   IF c1.res # "run" THEN [c |-> c1, p |-> p]
   ELSE CS(f, [c1 EXCEPT !.fo = @ + c1.nc, !.nc = 1, !.ec = 0, !.et = "", !.epm = c1.npm], p + 1, z)
@@ -385,7 +385,7 @@ CS(f, c, p, z) ==
 
 \* acquisition: format check (ImplRun), then the item-size test (ImplRes)
 ImplRun_(f, r) ==       \* a closing brace at top level makes _CheckString return (non-NULL) before the end of the string
-     [res |-> r.c.res, ev |-> IF r.c.res = "run" /\ r.p <= Len(f) THEN r.c.ev \cup {"stray-close"} ELSE r.c.ev]
+     [res |-> r.c.res, ev |-> IF r.c.res = "run" /\ r.c.lr = "brace" THEN r.c.ev \cup {"stray-close"} ELSE r.c.ev]
 ImplRun(t, f) == ImplRun_(f, CS(f, ImplInit(t), 1, FALSE))
 ImplRes(i, t, isz) == IF i.res = "run" THEN (IF isz = t.size THEN "accept" ELSE "reject")
                       ELSE IF i.res = "err" THEN "reject" ELSE i.res
@@ -488,7 +488,7 @@ Repeat2 == /\ ned < Edits
            /\ \E i \in (lastpos + 1)..Len(prods) : /\ prods[i] = OPEN
                 /\ Set("Repeat2", [prods EXCEPT ![i] = OPEN2], 1, i, FALSE, ntail)
 \* outside the grammar, but one character: a closing brace that closes nothing
-StrayClose == /\ ned < Edits
+StrayClose == /\ ned < Edits /\ ntail = 0
               /\ \E i \in (lastpos + 1)..(Len(prods) + 1) : DepthAt(prods, i) = 0
                    /\ Set("StrayClose", InsertAt(prods, i, CLOSE), 1, i, FALSE, ntail)
 \* after the format has run past its end: a few more productions from the narrow alphabet
